@@ -30,6 +30,7 @@ type Case struct {
 	Capture bool   `json:"capture"` // closure capturing the parameters each iteration
 	Context string `json:"context"`
 	Depth   int    `json:"depth"`
+	Nest    int    `json:"nest,omitempty"` // frames already in use when f is first called (a non-tail, one-slot-per-frame wrapper recursion)
 }
 
 type fail struct{ sig, what string }
@@ -177,7 +178,18 @@ func build(c Case) *gen.Program {
 		gen.Def("m", &gen.MapLit{}),
 		gen.Def("f", &gen.FuncLit{Params: params, VarArgs: variadic, Body: body}),
 		gen.Set(&gen.Sel{X: I("m"), Name: "f"}, I("f")),
-		gen.Def("out", &gen.Call{F: I("f"), Args: first}),
+	}
+	if c.Nest > 0 {
+		// wrap := func() { if g == 0 { return f(first...) }; g -= 1; return [wrap()][0] }: Nest frames below f
+		main = append(main, gen.Def("g", N(fmt.Sprint(c.Nest-1))),
+			gen.Def("wrap", &gen.FuncLit{Body: []gen.Stmt{
+				&gen.If{Cond: B("==", I("g"), N("0")), Then: []gen.Stmt{&gen.Return{X: &gen.Call{F: I("f"), Args: first}}}},
+				&gen.Assign{LHS: I("g"), Op: "-=", RHS: N("1")},
+				&gen.Return{X: &gen.Index{X: &gen.ArrayLit{Elems: []gen.Expr{C("wrap")}}, I: N("0")}},
+			}}),
+			gen.Def("out", C("wrap")), gen.Set(I("wrap"), gen.Undef()))
+	} else {
+		main = append(main, gen.Def("out", &gen.Call{F: I("f"), Args: first}))
 	}
 	if c.Capture {
 		// the captured parameters of the first, second and last iteration
@@ -198,7 +210,11 @@ func runCase(c Case) (fails []fail, obs string) {
 	src := tg.Print(prog)
 	tail, ternary := ctxInfo(c.Context)
 	add := func(kind, what string) {
-		fails = append(fails, fail{fmt.Sprintf("%s/context=%s/params=%s/locals=%d/capture=%v", kind, c.Context, c.Params, c.Locals, c.Capture), what})
+		sig := fmt.Sprintf("%s/context=%s/params=%s/locals=%d/capture=%v", kind, c.Context, c.Params, c.Locals, c.Capture)
+		if c.Nest > 0 {
+			sig += fmt.Sprintf("/nest=%d", c.Nest)
+		}
+		fails = append(fails, fail{sig, what})
 	}
 	// reference: loop semantics for tail position, depth-limited otherwise
 	r := ref.Run(prog, nil, 40*c.Depth+100000)
@@ -328,6 +344,16 @@ func main() {
 							continue // beyond the reference's own frame budget the expected value is not defined by a sibling program
 						}
 						cases = append(cases, Case{Params: ps, Locals: locals, Capture: capt, Context: cx.name, Depth: d})
+						// the same function first called when (almost) all frames are already in use: a self tail
+						// call needs no new frame, so it completes there too
+						if cx.tail && (d <= 3 || d == 2049 || d == 100000) {
+							for _, nest := range []int{1021, 1022} {
+								if nest == 1021 && !r.Thorough() {
+									continue
+								}
+								cases = append(cases, Case{Params: ps, Locals: locals, Capture: capt, Context: cx.name, Depth: d, Nest: nest})
+							}
+						}
 					}
 				}
 			}
